@@ -75,7 +75,7 @@ class DecTheory(ObjTheory):
 
     def global_name(self, ex, name):
         if name in ("int", "float", "str", "len", "repeat", "chain", "datetime", "timezone", "timedelta", "re",
-                    "for_try_except", "InvalidOperation", "QuantityError", "all", "reversed", "hasattr", "round", "warn",
+                    "for_try_except", "InvalidOperation", "QuantityError", "all", "any", "reversed", "hasattr", "round", "warn",
                     "isinstance", "super", "Token"):
             return FuncV(name)
         return super().global_name(ex, name)
@@ -298,8 +298,8 @@ class DecTheory(ObjTheory):
                 return Z("bool", fresh("hasattr", B))
             if n == "round":
                 return Z("int", fresh("round", I))
-            if n == "all":
-                return Z("bool", fresh("all", B))
+            if n in ("all", "any"):
+                return Z("bool", fresh(n, B))
             if n == "Token":
                 return ObjV("token", info={"text": fresh("tok", S)})
         return super().call(ex, fv, args, kwargs, node)
